@@ -262,6 +262,9 @@ func (g *Gen) load(ptr ssa.Value, h *Heap, guard string) string {
 	if isStruct(pt) {
 		return m.structLoad(h, pt, g.val(ptr))
 	}
+	if fv, ok := ptr.(*ssa.FreeVar); ok && g.constCapture(fv) {
+		return g.constCaptureVal(fv, pt)
+	}
 	s := sortOf(pt)
 	arr := h.Get(cellVar(pt), ArrSort(SInt, s))
 	return Sel(arr, g.val(ptr))
@@ -273,6 +276,11 @@ func (g *Gen) store(ptr ssa.Value, val string, vt types.Type, h *Heap, guard str
 	switch a := ptr.(type) {
 	case *ssa.FieldAddr:
 		st, tn, _ := structOf(a.X.Type())
+		if g.vc.constVars[fieldVar(tn, st.Field(a.Field).Name())] && g.contract.Flags["constructor"] == "" {
+			// a const field may only be written inside an object this function allocated itself
+			name := fmt.Sprintf("%s#frame:const:%s.%s@%d", funcKey(g.fn), tn, st.Field(a.Field).Name(), g.ordinal("const:"+tn+"."+st.Field(a.Field).Name()))
+			g.vc.Assert(name, "frame", guard, Not(g.model.allocatedBefore(g.val(a.X), g.model.allocNow(g.entry))), g.pos(pos), "field declared const is only initialised in a fresh object")
+		}
 		return m.fieldStore(h, st, tn, a.Field, g.val(a.X), val)
 	case *ssa.IndexAddr:
 		if sl, ok := a.X.Type().Underlying().(*types.Slice); ok {
